@@ -320,7 +320,7 @@ def _rand_diff(rng, single, max_pkgs=40):
                 typ, open_head = 2, True
             else:
                 typ = 0
-            value = rng.choice([1, rng.randrange(1, 1000), 32767])
+            value = rng.choice([1, rng.randrange(1, 1000), 32767, -1, -32768, -rng.randrange(1, 1000)])
             p[3].append([s, [value, rng.randrange(16), rng.randrange(16), typ]])
         pk += pkgs
     # file order: non-decreasing measure, channels of one measure in any order
